@@ -303,16 +303,12 @@ Definition read_int (o : opts) (t : ity) (rest : list N) : rres Z :=
 Definition read_nil (o : opts) (rest : list N) : rres unit :=
   match rest with
   | [] => RErr EParse
-  | b :: r1 => if b =? 0xC0 then ROk tt r1 else mismatch_via_type o rest
-  end.
-
-(* CMsgPackStreamReader::ReadValue(nullptr_t&) classifies by the table entry of the first byte
-   (no ReadValueType call); everything else in the stream reader follows the functions above *)
-Definition read_nil_stream (o : opts) (rest : list N) : rres unit :=
-  match rest with
-  | [] => RErr EParse
   | b :: r1 => if b =? 0xC0 then ROk tt r1 else handle_mismatch o (inl (m_ty (byte_meta b))) rest
   end.
+
+(* CMsgPackStreamReader::ReadValue(nullptr_t&) is the same function (since fix 'classifies a non-nil
+   value for a nil target like the stream reader'); kept as a name for the driver *)
+Definition read_nil_stream := read_nil.
 
 (* ---- floating targets; narrowing double->float and widening float->double are the C++
    conversions (static_cast / ConvertByPolicy(double,float)), supplied by the caller ---- *)
